@@ -106,7 +106,7 @@ def _disjoint_step(tr, stmts):
     return [], lambda env: V([S(f'({v} : Int)', const=v) for v in vals])
 
 _SZ = ('attr', {'size': 'int'})
-_OFF = ('attr', {'offset': 'pair'})
+_OFF = ('attr', {'offset': 'pairk'})     # the offsets with their container type: `==` would compare that too
 FIELDMERGE = {
     '_merge_slices#step': {'py_name': '_merge_slices', 'lean_name': 'mergeSlice',
                            'params': [('rmin', 'int'), ('rmax', 'int'), ('cmin', 'int'), ('cmax', 'int'),
@@ -137,6 +137,6 @@ FIELDDISPATCH = {
 }
 
 MODULES = [
-    {'name': 'FieldDispatch', 'src': 'lentil/field.py', 'sigs': FIELDDISPATCH, 'props': ['C06'], 'imports': []},
+    {'name': 'FieldDispatch', 'src': 'lentil/field.py', 'sigs': FIELDDISPATCH, 'props': ['C06', 'C07', 'C02', 'C03'], 'imports': []},
     {'name': 'FieldMerge', 'src': 'lentil/field.py', 'sigs': FIELDMERGE, 'props': ['C06', 'C07', 'C02', 'C03'], 'imports': []},
 ]
